@@ -102,6 +102,38 @@ theorem bwdLin_spec (es : List (Edge K)) (dist : K) :
       have := ih hb2
       exact ⟨by omega, this.2.1, this.2.2⟩
 
+/-! ### the `dist == 0.0` scan (first entry of non-zero length) -/
+
+theorem zeroScan_spec (es : List (Edge K)) :
+    ∀ (fuel c : Nat), 1 ≤ c → c < es.length → es.length - c ≤ fuel → dAt es (c - 1) = 0 →
+      c ≤ zeroScan es fuel c ∧ zeroScan es fuel c < es.length ∧
+      dAt es (zeroScan es fuel c - 1) = 0 ∧
+      (zeroScan es fuel c + 1 = es.length ∨ dAt es (zeroScan es fuel c) ≠ 0) := by
+  intro fuel
+  induction fuel with
+  | zero => intro c _ h1 h2; omega
+  | succ n ih =>
+    intro c hc1 hc hf hz
+    unfold zeroScan
+    by_cases h : c + 1 < es.length ∧ (dAt es c == (Scalar.zero : K)) = true
+    · rw [if_pos h]
+      have hz' : dAt es c = 0 := by
+        have := h.2
+        rw [sc_beq] at this
+        simpa using this
+      have := ih (c + 1) (by omega) h.1 (by omega) (by simpa using hz')
+      exact ⟨by omega, this.2.1, this.2.2.1, this.2.2.2⟩
+    · rw [if_neg h]
+      refine ⟨le_refl _, hc, hz, ?_⟩
+      by_cases h1 : c + 1 < es.length
+      · right
+        intro h0
+        apply h
+        refine ⟨h1, ?_⟩
+        rw [sc_beq]
+        simpa using h0
+      · left; omega
+
 end
 
 end Lyon.Measure
